@@ -695,6 +695,11 @@ func genRawStores(c *genChain) map[string]string {
 		n := 0
 		it := ctx.KVStore(key).Iterator(nil, nil)
 		for ; it.Valid(); it.Next() {
+			if m == "auth" && len(it.Key()) == 1 && it.Key()[0] == 0x02 {
+				// the global account-number counter: numbers consumed by accounts that no longer exist
+				// (a destroyed marker's account) are not re-consumed after an import
+				continue
+			}
 			if m == "attribute" && len(it.Key()) > 0 && it.Key()[0] == 0x03 {
 				// name->address lookup COUNTERS are derived data: SetAttribute increments the counter
 				// also when it overwrites an identical (account, name, value) attribute (pinned by the
